@@ -3,13 +3,14 @@ from checks import unitscheck
 
 MENUS = {
     'quick': [
-        ('types', ['tA', 'tB', 'tM', 'tAB', 'tA2', 'tApB', 'tBi', 'tMpA', 'tA1', 'tA2_dup2', 'tA_dupsym', 'tMpA_dup'], 5),
+        ('types', ['tA', 'tB', 'tM', 'tAB', 'tA2', 'tApB', 'tBi', 'tMpA', 'tA1', 'tA2_dup2', 'tA_dupsym', 'tMpA_dup', 'tA2_symdup'], 5),
         ('sameDef', ['tA', 'tA2', 'ka', 'ka2', 'kk', 'sq', 'ha', 'd_kk_ka', 'd_ka2_ka', 'm_ka_ka'], 6),
         ('units', ['tA', 'tB', 'tAB', 'tA2', 'ka', 'ha', 'cb', 'kab', 'ka2', 'kacb', 'sq', 'aa'], 6),
         ('terms3', ['tA', 'tB', 'ka', 'cb', 'kbc', 'kbc2', 'ha'], 6),
         ('quantized', ['tD', 'kd', 'td', 'hd', 'tA', 'ka'], 5),
         ('dupsym', ['tA', 'tB', 'tA2', 'ka', 'cb', 'ka_dupB', 'a_dup', 'empty', 'nonstr', 'xb_wrongtype', 'ka2', 'bad_dim'], 5),
         ('noref', ['tA', 'tM', 'tMpA', 'p', 'q', 'ka', 'ppa', 'ppka', 'qpa', 'p_dup'], 6),
+        ('baddefs', ['tA', 'tB', 'tAB', 'ka', 'cb', 'bad_dim', 'bad_cancel', 'arity', 'wrongorder', 'onbase', 'kacb', 'm_ka_cb'], 5),
     ],
     'thorough': [
         ('types', ['tA', 'tB', 'tM', 'tAB', 'tA2', 'tApB', 'tBi', 'tMpA', 'tA1', 'tA2_dup2', 'tA2_dup', 'tA_dupsym'], 6),
